@@ -33,7 +33,8 @@ def histories(draw):
         if k == "advance":
             ops.append({"op": k, "m": draw(st.sampled_from([0, 1, 2, 3]) if ens else st.one_of(st.integers(0, 30), st.integers(95, 130)))})
         elif k == "exchange":
-            ops.append({"op": k, "u": [draw(st.floats(-1.5, 1.5)) for _ in range(cfg["d"])]})
+            # (in a ladder whose chains do not share their bounds the received point may lie outside the receiver's box)
+            ops.append({"op": k, "u": [draw(st.floats(-1.5, 1.5)) for _ in range(cfg["d"])], "keep_outside": draw(st.sampled_from([False, False, True]))})
         elif k == "step_clone":
             ops.append({"op": k, "m": draw(st.integers(1, 3))})
         else:
@@ -103,10 +104,11 @@ def build_from_info(cfg, tgt, info):
         if cls in ("gibbs", "metropolis"):
             C = GibbsChain if cls == "gibbs" else MetropolisChain
             ch = C(posterior=tgt, start=info["start"], widths=info["widths"], temperature=cfg["T"], **kw)
-            for i, kind in enumerate(cfg.get("limits", [])):
-                if kind == "bounded":
+            for i in range(len(cfg.get("limits", []))):
+                kind = S.limit_kind(cfg, i)
+                if kind in ("bounded", "both"):
                     ch.set_boundaries(i, S.gibbs_interval(cfg, i))
-                elif kind == "nonneg":
+                if kind in ("nonneg", "both"):
                     ch.set_non_negative(i, True)
             return ch
         if cls == "pca":
@@ -147,13 +149,14 @@ def body_history(case, ctx):
                     c, s = S.centre_scale(cfg)
                     pos = c + np.array(op["u"]) * s
                     box = S.box_of(cfg)
-                    if box is not None:
+                    if box is not None and not op.get("keep_outside"):
                         pos = np.clip(pos, box[0], box[1])
                     for i, kind in enumerate(cfg.get("limits", [])):
+                        kind = S.limit_kind(cfg, i)
                         if kind == "nonneg":
                             pos[i] = abs(pos[i])
-                        elif kind == "bounded":
-                            lo, hi = S.gibbs_interval(cfg, i)
+                        elif kind in ("bounded", "both"):
+                            lo, hi = S.support_interval(cfg, i)
                             pos[i] = min(max(pos[i], lo), hi)
                     if cfg["target"]["kind"] == "cliff":
                         # keep installed points off the discontinuities: a point within an ulp of a cliff edge makes the
